@@ -18,7 +18,7 @@ RULE = ("triples (X,Y,Z) per class (SO2, SE2, SO3, SE3, UnitQuaternion, Twist2, 
         "NumPy reference evaluation; structured inverses vs a 50-digit mpmath inverse; quaternions compared as rotations "
         "(sign-free), twists through the reference exponential. Non-trivial: a non-commuting pair and (|t|>1e3 or angle "
         "within 1e-6 of pi or |n|>=2 or depth>=3).")
-RULE = RULE + probes.RULE_TEXT + (probes.AUG_TEXT if PROPERTY_ID in probes.AUG_PROPS else "") + probes.VARIANT_TEXT + probes.OWN_TEXT
+RULE = RULE + probes.RULE_TEXT + (probes.AUG_TEXT if PROPERTY_ID in probes.AUG_PROPS else "") + probes.VARIANT_TEXT + probes.OWN_TEXT + probes.EXTRA_RULES.get(PROPERTY_ID, "")
 ASSUMPTIONS = ["tolerance 1e-9*max(1,|t|) with |t| the largest translation among operands, intermediates and result (1e-7 for twists)",
                "reference evaluation in float64 NumPy with transposed-rotation inverses; mpmath only for the inverse check"]
 
